@@ -162,6 +162,7 @@ class RecordRun:
         self.rearmed = 0
         self.schedule = []
         self.internal = []
+        self.refused = []        # outcomes of send_record() calls with something that is not bytes
         self.skip = 0            # bytes of the next frame that the previous read already carried ("straddle" chunking)
         self.held = b""          # bytes of earlier frames held back for the "coalesce" chunking
         self.held_count = 0
@@ -256,6 +257,15 @@ class RecordRun:
                 p = (b"%03d" % i) + p[3:] if n >= 3 else p
             self.payloads.append(p)
             self.src.send_record(p)
+            self._drain_src()
+        elif a == "SendBad":
+            # the application hands over something that is not bytes: the call is refused (InternalError) - and that is all
+            obj = [u"text, not bytes", None, bytearray(b"mutable"), 17, [b"a", b"b"]][act[1] % 5]
+            try:
+                self.src.send_record(obj)
+                self.refused.append("accepted")
+            except Exception as e:
+                self.refused.append(type(e).__name__)
             self._drain_src()
         elif a == "Flip":
             i, where = act[1] - 1, act[2]
@@ -772,6 +782,18 @@ def run_c06(prop, tier):
             for k in (1, 3):
                 acts = [("Send", x + 1, "-") for x in range(k)] + ([] if cm else [("Read", 0, "-")] * k) + [("Recv", 0, "-")] * k
                 behaviours.append((cm, k, acts, "clean-slow"))
+        # refused calls in between: send_record() with something that is not bytes raises and must leave the stream alone
+        for cm in (False, True):
+            for pat in ((1, 0, 1, 1, 0, 1), (0, 1, 0, 1), (1, 1, 0, 0, 0, 1, 1)):
+                acts, k = [], 0
+                for j, good in enumerate(pat):
+                    if good:
+                        k += 1
+                        acts.append(("Send", k, "-"))
+                    else:
+                        acts.append(("SendBad", j, "-"))
+                acts += ([] if cm else [("Read", 0, "-")] * k) + [("Recv", 0, "-")] * k
+                behaviours.append((cm, k, acts, "refused-send"))
         # long histories: the nonce counter goes past one byte (and, in thorough, past 600 records); clean, and with the very first
         # frame shown again where the frame whose nonce has the same low byte is due
         for k in ((300,) if quick else (300, 700)):
@@ -785,7 +807,7 @@ def run_c06(prop, tier):
         for (cm, nrec, acts, origin) in behaviours:
             variants = [(d, ch) for d in ("s2r", "r2s") for ch in CHUNKINGS]
             rng.shuffle(variants)
-            if all(a[0] in ("Send", "Read", "Recv", "Lose") for a in acts):
+            if all(a[0] in ("Send", "SendBad", "Read", "Recv", "Lose") for a in acts):
                 # nobody touches the stream: reads may end anywhere, also a few bytes into the next length prefix
                 variants = [("s2r", "straddle"), ("r2s", "straddle")][:1 if quick and origin == "tlc-sim" else 2] + variants
             if origin in ("clean-long", "long-replay"):
